@@ -499,10 +499,11 @@ theorem nodup_le_eraseDups : ∀ (n : Nat) (l : List String), l.length ≤ n →
       omega
 
 /-- what `maybe_adjacently_tagged_enum` has established when it names a tag and a content member: they differ, the tag is
-    pinned to one string in every subschema, every subschema declares as many members as it requires, and none has a member
-    besides the two -/
+    pinned to one string in every subschema, every subschema requires exactly the members it declares (as many, and every
+    required name declared — the second half since fix 5170496), and none has a member besides the two -/
 theorem adjacent_sound {f : Nat} {ss : List Json} {t c : String} (h : adjTagContent f ss = some (t, c)) :
     t ≠ c ∧ ∀ s ∈ ss, ∃ o rq ps, getObject f s = some o ∧ reqOf o = some rq ∧ propsOf o = some ps ∧ ps.length = rq.length ∧
+      (∀ r ∈ rq, has ps r = true) ∧
       (∃ sch v, (t, sch) ∈ ps ∧ constStr sch = some v) ∧ ∀ kv ∈ ps, kv.1 = t ∨ kv.1 = c := by
   unfold adjTagContent at h
   cases hmm : ss.mapM (adjBranch f) with
@@ -582,7 +583,8 @@ theorem adjacent_sound {f : Nat} {ss : List Json} {t c : String} (h : adjTagCont
                       rw [hcs] at hk
                       simp only [Option.map_some, Option.some.injEq] at hk
                       subst hk
-                      refine ⟨o, rq, ps, rfl, hr, hpp, by simpa using hlen, ⟨sch, v, hkm, hcs⟩, ?_⟩
+                      have hlen' : List.length ps = rq.length ∧ ∀ (x : String), x ∈ rq → has ps x = true := by simpa using hlen
+                      refine ⟨o, rq, ps, rfl, hr, hpp, hlen'.1, hlen'.2, ⟨sch, v, hkm, hcs⟩, ?_⟩
                       intro kv hkv
                       have hx : kv.1 ∈ props := hqprops kv.1 (List.mem_map.mpr ⟨kv, hkv, rfl⟩)
                       have htp : k ∈ props := hqprops k (List.mem_map.mpr ⟨(k, sch), hkm, rfl⟩)
